@@ -92,6 +92,9 @@ mod stats;
 #[cfg(feature = "stats")]
 pub mod stats_registry;
 
+#[cfg(feature = "verif-hooks")]
+pub mod verif;
+
 pub use async_global_cache::AsyncGlobalCache;
 pub use cache_entry::CacheEntry;
 pub use eviction_policy::EvictionPolicy;
